@@ -64,7 +64,9 @@ CHECKS = {
             'second exploration applies restriction() over up to 3 levels '
             'for all 4 anisotropy cases x mu_r x epsilon_r x 12 pattern '
             'sequences and compares every coarse eta/zeta with the summed '
-            'children of a checker-side fine-level definition.',
+            'children of a checker-side fine-level definition; all patterns '
+            'are repeated on grids far from the origin and with tiny / '
+            'huge cells (translation invariance).',
             'Trusted: 40-line reference prolongation (linear in node '
             'coordinates). Shapes bounded.', '3/C04'),
     'C05': ('E1+E4', 'model_checking',
@@ -78,7 +80,11 @@ CHECKS = {
             'conformance on {2..4}^3. Thorough: all 59319 shapes 2..40 per '
             'cycle type and one direction up to 1024. Every run compares '
             'kernel dispatch, transfers (hierarchy), log events, per-cycle '
-            'digits, QC figure, header and termination with the reference.',
+            'digits, QC figure, header and termination with the reference. '
+            'Preconditioner mode: a scripted Krylov routine applies the '
+            'multigrid preconditioner 4 times; the kernel and transfer '
+            'traces of all calls must follow the digits cycling once per '
+            'fine-grid cycle across calls.',
             'Trusted: mc/refmodel/mgcycle.py (textbook recursion). The '
             'stubbing is validated by identical traces with real kernels '
             'on small shapes.', '3/C05'),
@@ -95,7 +101,9 @@ CHECKS = {
             'is a vector and the directional derivative is linear in the '
             'direction, so agreement of all entries (1e-8) is agreement for '
             'every perturbation direction; FD (two steps, second order) on '
-            'a covering subset; real-solver subset with tol 1e-11.',
+            'a covering subset; real-solver subset with tol 1e-11; the '
+            'gradient is re-read after jvec(v) and jtvec(w) on the same '
+            'object.',
             'Trusted: reference FIT operator (C02), sparse LU; sources and '
             'receiver sampling are emg3d forward code used as linear maps '
             '(C09/C10). Bulk in exact-solve mode (assume/guarantee with '
@@ -142,7 +150,10 @@ CHECKS = {
             'positions per case incl. one ulp either side of the node '
             'planes; reciprocity for all ordered pairs of 30 antennas x '
             'models x {E-E, H-H} in exact mode, plus real-solver subset with '
-            'an a-posteriori residual bound.',
+            'an a-posteriori residual bound; one call with several '
+            'orientations (all pairs, triples, sign-restricted sets); all '
+            'sequences <= 3 of get_magnetic_field calls with different '
+            'frequencies on one Model object.',
             'Trusted: own trilinear weights, reference curl (fit.py), '
             'sparse LU. mu_r != 1 magnetic sources are outside the '
             'property (documented as not implemented).', '3/C09'),
@@ -171,26 +182,31 @@ CHECKS = {
             'all feasible completion orders (up to 24 for 4 tasks, 720 for '
             '6) of the varied call, the full product over all calls for '
             'max_workers=2; oracle: bit-identity of all fields, data, '
-            'misfit, gradient, jvec with the sequential run and after '
-            'repeating the computation.',
+            'misfit, gradient, jvec with the sequential run, after '
+            'repeating the computation and after clean + compute on the '
+            'same object (forward and adjoint tolerances differ).',
             'Trusted: mc/refmodel/executor.py (pool model; tasks share one '
             'interpreter: over-approximation). Real pools only on forced '
             'orders of 4 tasks.', '3/C11'),
     'C12': ('E2', 'model_checking',
             'explicit-state breadth-first search over all operation '
-            'histories up to a depth (28 operations) with canonical-state '
+            'histories up to a depth (30 operations) with canonical-state '
             'merging; fresh real Simulation per history; differential '
             'oracle against a freshly created simulation',
             'Quick: all histories of depth <= 3 (P1, memory), <= 2 (P2 '
             'triaxial LgConductivity; P1 file_dir) over {compute, misfit, '
             'gradient, jvec, jtvec, get_efield, get_hfield, clean x3, copy '
-            'x4, dict x4, file x9, model update}; every history is closed '
+            'x4, dict x4, file x9, model update (new object / in place), '
+            'noise assignment, reading all public attributes}, and depth '
+            '<= 2 on a problem with a user-given computational grid; every '
+            'history is closed '
             'by the probes synthetic/misfit/gradient; copies and reloads '
             'continue after their original was mutated and wiped. Thorough: '
             'one level deeper.',
             'State merging is sound if the canonical key covers everything '
             'the methods read (enumerated from the source). Histories '
-            'bounded; in-place edits of arrays not in the alphabet.',
+            'bounded; of in-place edits only the model overwrite is in the '
+            'alphabet.',
             '3/C12'),
     'C13': ('E1+E2', 'model_checking',
             'full product of survey shapes x noise forms x NaN masks '
@@ -218,8 +234,11 @@ CHECKS = {
             'analytic and difference-quotient chain rule), 9600 VolumeModel '
             'coefficient comparisons against widths/constants, 4434 '
             'rejection-table entries (construction and assignment, all bad '
-            'value tokens), and fields/data/gradient equal across mappings '
-            'and equal to a direct solve of the reference operator.',
+            'value tokens, incl. augmented / in-place assignment), fields/'
+            'data/gradient equal across mappings and equal to a direct '
+            'solve of the reference operator, and the automatic gridding '
+            'inputs and meshes equal across mappings for models that are '
+            'heterogeneous within their outer faces.',
             'Trusted: analytic mappings, reference FIT operator.', '3/C14'),
     'C15': ('E1', 'model_checking',
             'all ordered pairs of 1-D node sets (all subsets of a lattice) '
@@ -254,8 +273,10 @@ CHECKS = {
             'object zoo (every registered class x variants) x formats, and '
             'all conversion chains up to a length from every initial '
             'format; structural, attribute-view and behavioural equality',
-            '176 objects x {h5, npz, json} (+ to_file/from_file) and all '
-            '4224 convert chains of length 3; content compared after every '
+            '182 objects (incl. simulations with user-given grids, every '
+            'numeric dtype family in both widths, infinities) x {h5, npz, '
+            'json} (+ to_file/from_file) and all 4368 convert chains of '
+            'length 3; content compared after every '
             'step (classes, keys, shapes, dtypes, values NaN-aware, scalar '
             'kinds), __eq__, and misfit/gradient of reloaded simulations.',
             'Python and NumPy scalars of the same kind, and 0-d arrays, '
@@ -266,7 +287,8 @@ CHECKS = {
             'alone with every value; pairs in thorough) and flags, CLI run '
             'in-process vs checker-built equivalent API sequence',
             'Every documented key x 1-3 values x function x format '
-            '(rotated), dry-run+save comparison of the saved simulation, '
+            '(rotated; dry runs in all three formats), dry-run+save '
+            'comparison of the saved simulation, '
             'precedence for all 9 options available both ways, unknown '
             'keys/flags rejected in all 7 sections, load/save/cache/clean '
             'sequences; data, misfit, gradient, n_observations equal to '
